@@ -178,6 +178,7 @@ def real_group(rec, modkey, group, quick, parts=("pairs", "scalars", "twist")):
             scalars += sparse_wide + rng.sample(wide, 4)                         # zero / one runs, low Hamming weight, single holes in wide scalars
         else:
             scalars += rng.sample(sparse_wide, 3) + rng.sample(wide, 2)
+        scalars += CG.ladder_special_scalars(r, rng, 4 if quick else 40)             # accumulator = O, +-P, +-2P in the middle of the ladder
         es = CG.endo_scalars(r)
         scalars += (es[:6] if quick else es) + list(range(4, 9 if quick else 40))     # eigenvalues of the j = 0 endomorphism, small scalars        # distinct ints with equal hash(): a memo keyed by hash(n) would confuse them
         plist = pts if not quick else [pts[0], pts[5], pts[-1], pts[-2]][: len(pts)]
